@@ -1,11 +1,215 @@
 import SigModel.Driver.Loop
+import SigModel.Spec.Proxy
 
-/-! Driver for C18 — stub (no model yet). -/
+/-!
+Driver for C18 (media proxy).  Op lines (see `harness/proxy/zz_verif_c18_proxy_test.go`):
+
+```
+cfg <iss=key,…|->                                   -- token key table; first line of a case
+connect <c> | close <c> | sleep <ms> | expire | mcudown | mcuclose <n>
+hello <c> tok <form> <alg> <signer> <mut> <iss> <iat> <nbf> <exp> <ver>
+hello <c> resume <kind> <n> <withtok>
+invalid <c> <kind>
+cmd <c> createpub|createsub <stream> <outcome>
+cmd <c> delpub|delsub <n>
+cmd <c> pubremote|unpubremote|getstreams <n> <outcome>
+cmd <c> unknown
+payload <c> <n> <fwd|eoc|unsupported> <variant> <outcome>
+bye <c> | other <c> <type>
+```
+
+Observation / prediction line: `out=<c:msg,…> S=<sid@c~ms[pubs/subs],…> C=<id(p|s),…> M=<id,…> K=<c,…>`.
+-/
 namespace SigModel.Driver.C18
+open SigModel.Proto SigModel.Proxy
+
+def nsPerMs : Int := 1000000
+def nsPerS : Int := 1000000000
+
+/-! ### printing -/
+
+def insertNat (x : Nat) : List Nat → List Nat
+  | [] => [x]
+  | y :: ys => if x ≤ y then x :: y :: ys else y :: insertNat x ys
+
+def sortNat (xs : List Nat) : List Nat := xs.foldr insertNat []
+
+def dedup (xs : List Nat) : List Nat := xs.foldr (fun x acc => if acc.contains x then acc else x :: acc) []
+
+def commaJoin (xs : List String) : String := if xs.isEmpty then "-" else ",".intercalate xs
+
+def showSMsg : SMsg → String
+  | .hello sid => s!"hello/{sid}"
+  | .err code => s!"err/{code}"
+  | .bye r => s!"bye/{r}"
+  | .ev t => s!"ev/{t}"
+  | .evObj t id => s!"evo/{t}/{id}"
+  | .created id => s!"created/{id}"
+  | .deleted id => s!"deleted/{id}"
+  | .cmdOk id => s!"cmdok/{id}"
+  | .payload id => s!"payload/{id}"
+
+/-- Messages grouped by connection (ascending), emission order kept per connection. -/
+def showOuts (o : Outs) : String :=
+  let cs := sortNat (dedup (o.map (·.1)))
+  commaJoin (cs.flatMap fun c => (outsTo o c).map fun m => s!"{c}:{showSMsg m}")
+
+def semi (xs : List Nat) : String := ";".intercalate (xs.map toString)
+
+def showSess (s : Sess) : String :=
+  let cl := match s.client with | some c => toString c | none => "-"
+  s!"{s.sid}@{cl}~{s.lastUsed / nsPerMs}[{semi (sortNat s.pubs)}/{semi (sortNat s.subs)}]"
+
+def showState (st : State) : String :=
+  let ss := (sortNat (st.sessions.map (·.sid))).filterMap (fun sid => (findSess st sid).map showSess)
+  let cl := (sortNat (st.clients.map (·.id))).filterMap (fun id =>
+    (findObj st.clients id).map fun o => s!"{o.id}{if o.isPub then "p" else "s"}")
+  let mc := (sortNat (st.mcuOpen.map (·.id))).map toString
+  let ks := (sortNat ((st.conns.filter (·.isOpen)).map (·.id))).map toString
+  s!"S={commaJoin ss} C={commaJoin cl} M={commaJoin mc} K={commaJoin ks}"
+
+/-! ### parsing ops -/
+
+def parseOutcome : String → Option Outcome
+  | "ok" => some .ok
+  | "fail" => some .fail
+  | "timeout" => some .timeout
+  | _ => none
+
+def parseClaim (now : Int) (tok : String) : Option (Option Int) :=
+  if tok == "-" then some none
+  else (toInt? tok).map fun off => some ((now / nsPerS + off) * nsPerS)
+
+def parseCfg (tok : String) : Cfg :=
+  if tok == "-" then {} else
+  { keys := (tok.splitOn ",").filterMap fun p =>
+      match p.splitOn "=" with
+      | [a, b] => (dec a).map fun i => (i, b)
+      | _ => none }
+
+def parseTok (now : Int) : List String → Option Tok
+  | [form, alg, _signer, _mut, iss, iat, nbf, exp, ver] => do
+    let alg ← dec alg
+    let iss ← dec iss
+    let iat ← parseClaim now iat
+    let nbf ← parseClaim now nbf
+    let exp ← parseClaim now exp
+    some { wellformed := form == "jwt", alg := alg, issuer := iss,
+           verifies := if ver == "-" then [] else ver.splitOn ",",
+           iat := iat, nbf := nbf, exp := exp }
+  | _ => none
+
+def parseOp (now : Int) : List String → Option Op
+  | ["connect", c] => do some (.connect (← toNat? c))
+  | ["close", c] => do some (.close (← toNat? c))
+  | ["sleep", ms] => do some (.sleep ((← toNat? ms) * 1000000))
+  | ["expire"] => some .expire
+  | ["mcudown"] => some .mcuDown
+  | ["mcuclose", n] => do some (.mcuClose (← toNat? n))
+  | "hello" :: c :: "tok" :: rest => do
+    some (.msg (← toNat? c) (.hello (.token (← parseTok now rest))))
+  | ["hello", c, "resume", kind, n, _withtok] => do
+    let n ← toNat? n
+    some (.msg (← toNat? c) (.hello (.resume (if kind == "exact" then some n else none))))
+  | ["invalid", c, _kind] => do some (.msg (← toNat? c) .invalid)
+  | ["cmd", c, "createpub", _stream, o] => do some (.msg (← toNat? c) (.createPub (← parseOutcome o)))
+  | ["cmd", c, "createsub", _stream, o] => do some (.msg (← toNat? c) (.createSub (← parseOutcome o)))
+  | ["cmd", c, "delpub", n] => do some (.msg (← toNat? c) (.deletePub (← toNat? n)))
+  | ["cmd", c, "delsub", n] => do some (.msg (← toNat? c) (.deleteSub (← toNat? n)))
+  | ["cmd", c, "pubremote", n, o] => do some (.msg (← toNat? c) (.pubCmd (← toNat? n) (← parseOutcome o)))
+  | ["cmd", c, "unpubremote", n, o] => do some (.msg (← toNat? c) (.pubCmd (← toNat? n) (← parseOutcome o)))
+  | ["cmd", c, "getstreams", n, o] => do some (.msg (← toNat? c) (.pubCmd (← toNat? n) (← parseOutcome o)))
+  | ["cmd", c, "unknown"] => do some (.msg (← toNat? c) .unknownCmd)
+  | ["payload", c, n, kind, _variant, o] => do
+    let k ← match kind with
+      | "fwd" => some PayloadKind.fwd
+      | "eoc" => some .eoc
+      | "unsupported" => some .unsupported
+      | _ => none
+    some (.msg (← toNat? c) (.payload (← toNat? n) k (← parseOutcome o)))
+  | ["bye", c] => do some (.msg (← toNat? c) .bye)
+  | ["other", c, _ty] => do some (.msg (← toNat? c) .other)
+  | _ => none
+
+/-! ### parsing observations -/
+
+def parseSMsg (s : String) : Option SMsg :=
+  match s.splitOn "/" with
+  | ["hello", sid] => (toNat? sid).map .hello
+  | ["err", code] => some (.err code)
+  | ["bye", r] => some (.bye r)
+  | ["ev", t] => some (.ev t)
+  | ["evo", t, id] => (toNat? id).map (.evObj t)
+  | ["created", id] => (toNat? id).map .created
+  | ["deleted", id] => (toNat? id).map .deleted
+  | ["cmdok", id] => (toNat? id).map .cmdOk
+  | ["payload", id] => (toNat? id).map .payload
+  | _ => none
+
+def listOf (s : String) (sep : String) : List String :=
+  if s == "-" || s == "" then [] else s.splitOn sep
+
+def parseOuts (s : String) : Option Outs :=
+  (listOf s ",").mapM fun item =>
+    match item.splitOn ":" with
+    | [c, m] => do some ((← toNat? c), (← parseSMsg m))
+    | _ => none
+
+def parseNats (s : String) (sep : String) : Option (List Nat) := (listOf s sep).mapM toNat?
+
+def parseSessObs (s : String) : Option SessObs :=
+  -- sid@client~ms[pubs/subs]
+  match s.splitOn "[" with
+  | [hd, tl] =>
+    match hd.splitOn "@", (takeS (tl.length - 1) tl).splitOn "/" with
+    | [sid, rest], [ps, ss] =>
+      match rest.splitOn "~" with
+      | [cl, ms] => do
+        let sid ← toNat? sid
+        let cl ← if cl == "-" then some none else (toNat? cl).map some
+        let ms ← toInt? ms
+        some { sid := sid, client := cl, lastUsed := ms * nsPerMs, pubs := ← parseNats ps ";", subs := ← parseNats ss ";" }
+      | _ => none
+    | _, _ => none
+  | _ => none
+
+def parseClientObs (s : String) : Option (Nat × Bool) :=
+  let cs := s.toList
+  match cs.reverse with
+  | 'p' :: r => (toNat? (String.ofList r.reverse)).map (·, true)
+  | 's' :: r => (toNat? (String.ofList r.reverse)).map (·, false)
+  | _ => none
+
+def field (pre : String) (toks : List String) : Option String :=
+  (toks.find? (hasPrefix pre)).map (dropS pre.length)
+
+def parseObs (toks : List String) : Option Obs := do
+  let o ← parseOuts (← field "out=" toks)
+  let ss ← (listOf (← field "S=" toks) ",").mapM parseSessObs
+  let cl ← (listOf (← field "C=" toks) ",").mapM parseClientObs
+  let mc ← parseNats (← field "M=" toks) ","
+  let ks ← parseNats (← field "K=" toks) ","
+  some { outs := o, sess := ss, clients := cl, mcu := mc, conns := ks }
+
+/-! ### step -/
 
 structure St where
-  dummy : Unit := ()
+  cfg : Cfg := {}
+  model : State := {}
+  judge : Judge := {}
 
-def step (st : St) (_op _impl : List String) : St × String × String := (st, "bad-op", "na")
+def step (st : St) (op impl : List String) : St × String × String :=
+  match op with
+  | ["cfg", pairs] => ({ st with cfg := parseCfg pairs }, "ok", "na")
+  | _ =>
+  match parseOp st.model.now op with
+  | none => (st, "bad-op", "na")
+  | some o =>
+    let (m', outs) := SigModel.Proxy.step st.cfg st.model o
+    let line := s!"out={showOuts outs} {showState m'}"
+    let (j', v) := match parseObs impl with
+      | some obs => st.judge.observe st.cfg o obs
+      | none => (st.judge, "na")
+    ({ st with model := m', judge := j' }, line, v)
 
 end SigModel.Driver.C18
